@@ -51,6 +51,9 @@ def make_models():
     from .plug_np_c07 import C07RingModels  # C07 algebra: uninterpreted matrix ring (gated on `c07 = "ring"` contracts / its own heap objects)
 
     m.plugins.insert(0, C07RingModels())
+    from .plug_np_c07 import C07CacheModels  # C07 cache of minimal couplings (gated on `c07 = "cache"` contracts)
+
+    m.plugins.insert(0, C07CacheModels())
     from .plug_hdf import HdfModels  # C11: abstract h5py node (hooks gated on its own h5py.Group objects / on module gemseo.algos._hdf_database)
 
     m.plugins.insert(0, HdfModels())
@@ -60,6 +63,9 @@ def make_models():
     from .plug_hdf import HdfCacheFileModels  # C05/C11: the whole cache file behind HDF5FileSingleton.__file (gated on its own objects / module _hdf5_file_singleton)
 
     m.plugins.insert(0, HdfCacheFileModels())
+    from .plug_c05more import C05MoreModels  # C05: HDF5Cache (model code gated on `c05more_model_code` contracts; del/exists/read_hashes on the abstract cache file, module _hdf5_file_singleton)
+
+    m.plugins.insert(0, C05MoreModels())
     from .plug_c01 import C01Models  # C01: abstract CSR matrices, record-model constructors, small Python features (gated on `c01 = True` contracts / own heap objects)
 
     m.plugins.insert(0, C01Models())
@@ -69,6 +75,9 @@ def make_models():
     from .plug_json import JsonModels  # C15/C20: JSON grammar caches, abstract schema builder, pickled state of JSONGrammar / HDF5Cache (gated on own types / classes)
 
     m.plugins.insert(0, JsonModels())
+    from .plug_pydantic import PydanticModels  # C15: abstract pydantic model of PydanticGrammar (gated on its module / its own model objects)
+
+    m.plugins.insert(0, PydanticModels())
     from .plug_c09 import C09Models  # C09: chains (optional tuples, CouplingStructure constructor model, discipline.jac ghost dictionary, sums of blocks; gated on `c09_chains = True`)
 
     m.plugins.insert(0, C09Models())
@@ -87,6 +96,33 @@ def make_models():
     from .plug_c17b import C17bInitModels  # C17: models of BaseFormulation.__init__ / CouplingStructure(...) (gated on `c17b_init = True` contracts)
 
     m.plugins.insert(0, C17bInitModels())
+    from .plug_c04r import C04ResultModels  # C04: result dataclasses, islice/next, single-expression nested functions, any(axis=1) (gated on `c04r = True` contracts)
+
+    m.plugins.insert(0, C04ResultModels())
+    from .plug_c04r import C04NumpyModels  # C04: numpy.any(axis=1), arrays havoc'ed by a loop (gated on `c04r = True` contracts)
+
+    m.plugins.insert(0, C04NumpyModels())
+    from .plug_c04r import C04SubscriptModels  # C04: array subscripts with in-context normalisation of indices (gated on `c04r = True` contracts)
+
+    m.plugins.insert(0, C04SubscriptModels())
+    from .plug_c02 import C02Models  # C02 link level: sequences of vectors built by comprehensions, concatenate of them, cited offset lemmas (gated on `c02_lnk = True` contracts)
+
+    m.plugins.insert(0, C02Models())
+    from .plug_dsfiles import DsFileModels  # C11: design-space files (abstract text table of genfromtxt / PrettyTable; gated on `c11_files = True` contracts / own heap objects)
+
+    m.plugins.insert(0, DsFileModels())
+    from .plug_c13d import C13dModels  # C13 consequences: opaque disciplines behind the parallel wrappers, parallel DOE store callback (gated on `c13d = True` contracts / own values)
+
+    m.plugins.insert(0, C13dModels())
+    from .plug_c20b import C20bModels  # C20 per-class state protocol: locks, None/{}/[] attribute values, truth/equality of attribute values (gated on `c20b = True` contracts)
+
+    m.plugins.insert(0, C20bModels())
+    from .plug_c09n import C09NumModels  # C09 numerical chain rule: Jacobian blocks as array references denoting ring matrices, sorted intersections (gated on `c09_numeric = True` contracts)
+
+    m.plugins.insert(0, C09NumModels())
+    from .plug_c05lin import C05LinModels  # C05 linearize protocol: nested <-> flat Jacobian dictionaries at the cache interface, ExecutionStatus.handle (gated on `c05lin = True` contracts)
+
+    m.plugins.insert(0, C05LinModels())
     return m
 
 
